@@ -323,6 +323,8 @@ class World:
             self.step_logs, self.step_emitted, self.step_internal_errors = [], [], []
         elif kind == 'kfail':       # ('kfail', ep, k, errno): k-th netlink request from now fails
             self.endpoints[ev[1]].kernel.fail_next(ev[2], ev[3])
+        elif kind == 'ksockfail':   # ('ksockfail', ep, k, errno): k-th netlink request from now raises OSError in the socket
+            self.endpoints[ev[1]].kernel.sock_fail_next(ev[2], ev[3])
         elif kind == 'sendfail':    # ('sendfail', ep, k, exc-name)
             ep = self.endpoints[ev[1]]
             exc = {'gaierror': socket.gaierror(-2, 'Name or service not known'),
